@@ -24,18 +24,91 @@ import (
 	"os"
 	"path"
 	"path/filepath"
+	"strconv"
 	"strings"
 	"sync"
 	"sync/atomic"
 	"time"
 
 	"github.com/nuetzliches/hookaido/internal/app"
+	"github.com/nuetzliches/hookaido/internal/config"
 	"github.com/nuetzliches/hookaido/internal/queue"
 )
 
 func init() {
 	register("auth-run", authRun)
 	register("crypto-vectors", cryptoVectors)
+	register("compile-check", compileCheck)
+	register("lib-twins", libTwins)
+}
+
+// lib-twins: the Go library functions Verify / BasicAuth call, on given byte strings (hex in, hex out).
+type ltOut struct {
+	Trim     string `json:"trim"`
+	IntOK    bool   `json:"int_ok"`
+	Int      int64  `json:"int"`
+	HexOK    bool   `json:"hex_ok"`
+	Hex      string `json:"hex"`
+	BasicOK  bool   `json:"basic_ok"`
+	User     string `json:"user"`
+	Pass     string `json:"pass"`
+	Clean    string `json:"clean"`
+	Canon    string `json:"canon"`
+}
+
+func libTwins(in []byte) (any, error) {
+	var vals []string
+	if err := json.Unmarshal(in, &vals); err != nil {
+		return nil, err
+	}
+	out := make([]ltOut, 0, len(vals))
+	for _, hv := range vals {
+		b, err := hex.DecodeString(hv)
+		if err != nil {
+			return nil, err
+		}
+		v := string(b)
+		o := ltOut{Trim: hex.EncodeToString([]byte(strings.TrimSpace(v)))}
+		if n, err := strconv.ParseInt(v, 10, 64); err == nil {
+			o.IntOK, o.Int = true, n
+		}
+		if d, err := hex.DecodeString(v); err == nil {
+			o.HexOK, o.Hex = true, hex.EncodeToString(d)
+		}
+		r := &http.Request{Header: http.Header{}}
+		r.Header["Authorization"] = []string{v}
+		u, p, ok := r.BasicAuth()
+		o.BasicOK, o.User, o.Pass = ok, hex.EncodeToString([]byte(u)), hex.EncodeToString([]byte(p))
+		o.Clean = hex.EncodeToString([]byte(path.Clean(v)))
+		o.Canon = hex.EncodeToString([]byte(http.CanonicalHeaderKey(v)))
+		out = append(out, o)
+	}
+	return out, nil
+}
+
+// compile-check: real config.Parse + config.Compile on each text.
+type ccOut struct {
+	ParseOK   bool     `json:"parse_ok"`
+	CompileOK bool     `json:"compile_ok"`
+	Errors    []string `json:"errors"`
+}
+
+func compileCheck(in []byte) (any, error) {
+	var texts []string
+	if err := json.Unmarshal(in, &texts); err != nil {
+		return nil, err
+	}
+	out := make([]ccOut, 0, len(texts))
+	for _, t := range texts {
+		cfg, err := config.Parse([]byte(t))
+		if err != nil {
+			out = append(out, ccOut{Errors: []string{err.Error()}})
+			continue
+		}
+		_, res := config.Compile(cfg)
+		out = append(out, ccOut{ParseOK: true, CompileOK: res.OK, Errors: res.Errors})
+	}
+	return out, nil
 }
 
 // ---------------------------------------------------------------------------
@@ -111,8 +184,11 @@ type arParsed struct {
 	Route     string              `json:"route"`
 	RouteOK   bool                `json:"route_ok"`
 	Allowed   []string            `json:"allowed"`
-	Headers   map[string][]string `json:"headers"`
+	Headers   map[string][]string `json:"headers"` // canonical key -> values, each value hex-encoded (byte exact)
 	Host      string              `json:"host"`
+	MethodHex string              `json:"method_hex"`
+	URLHex    string              `json:"url_path_hex"`
+	CleanHex  string              `json:"clean_path_hex"`
 	BasicUser string              `json:"basic_user"` // hex
 	BasicPass string              `json:"basic_pass"` // hex
 	BasicOK   bool                `json:"basic_ok"`
@@ -364,8 +440,15 @@ func (t *teeBody) Close() error { return t.rc.Close() }
 func (a *arRuntime) ServeHTTP(w http.ResponseWriter, r *http.Request) {
 	rec := &arParsed{Method: r.Method, URLPath: r.URL.Path, Host: r.Host, Headers: map[string][]string{}}
 	rec.CleanPath = path.Clean(r.URL.Path)
+	rec.MethodHex = hex.EncodeToString([]byte(r.Method))
+	rec.URLHex = hex.EncodeToString([]byte(r.URL.Path))
+	rec.CleanHex = hex.EncodeToString([]byte(rec.CleanPath))
 	for k, v := range r.Header {
-		rec.Headers[k] = append([]string{}, v...)
+		hv := make([]string, 0, len(v))
+		for _, x := range v {
+			hv = append(hv, hex.EncodeToString([]byte(x)))
+		}
+		rec.Headers[k] = hv
 	}
 	u, p, ok := r.BasicAuth()
 	rec.BasicUser, rec.BasicPass, rec.BasicOK = hex.EncodeToString([]byte(u)), hex.EncodeToString([]byte(p)), ok
